@@ -107,6 +107,7 @@ SNIPPETS: list[tuple[str, str]] = [
     ("attr:class-level-forms", "class C{n}:\n    a, b = 1, 'x'\n    c = d = 0.5\n    e: ClassVar[int] = 1\n    f: Final = 2\n    g: Final[str] = 'g'\n    h: 'C{n} | None' = None\n    i: list['C{n}'] = []\n    j = _helper()\n    k: int\n    l = lambda self: 1\n    m = property(lambda self: 1)\n    __slots__ = ('x',)\n"),
     ("type:bare-Final", "class C{n}:\n    f: Final = 2\n"),
     ("class:properties", "class C{n}:\n    def __init__(self) -> None:\n        self._v = 0\n\n    @property\n    def v(self) -> int:\n        \"\"\"The v.\"\"\"\n        return self._v\n\n    @v.setter\n    def v(self, value: int) -> None:\n        self._v = value\n\n    @v.deleter\n    def v(self) -> None:\n        del self._v\n\n    @functools.cached_property\n    def cached(self) -> int:\n        return 1\n\n    @property\n    def untyped(self):\n        return self._v\n"),
+    ("class:several-properties-with-setters", "class C{n}:\n    @property\n    def a(self) -> int:\n        return 1\n\n    @a.setter\n    def a(self, v: int) -> None: ...\n\n    @property\n    def b(self) -> str:\n        return 'b'\n\n    @b.setter\n    def b(self, v: str) -> None: ...\n\n    @b.deleter\n    def b(self) -> None: ...\n\n\nclass P{n}(Protocol):\n    @overload\n    def m(self, a: int) -> int: ...\n    @overload\n    def m(self, a: str) -> str: ...\n    @overload\n    def n(self, a: int) -> int: ...\n    @overload\n    def n(self, a: str) -> str: ...\n"),
     ("class:static-class-methods", "class C{n}:\n    @staticmethod\n    def s(a: int, b=2) -> int:\n        return a\n\n    @classmethod\n    def c(cls, a: int) -> 'C{n}':\n        return cls()\n\n    @staticmethod\n    def s2(*args, **kwargs):\n        pass\n"),
     ("class:nested", "class C{n}:\n    class Inner:\n        class Deep:\n            z: int = 1\n\n            def go(self) -> 'C{n}.Inner.Deep':\n                return self\n\n        def make(self) -> 'C{n}.Inner':\n            return self\n\n    class _Hidden:\n        pass\n\n    def use(self, i: 'C{n}.Inner') -> Inner:\n        return i\n"),
     ("class:nested-enum", "class C{n}:\n    class Mode(Enum):\n        A = 1\n        B = 2\n\n    def mode(self) -> 'C{n}.Mode':\n        return C{n}.Mode.A\n"),
